@@ -78,28 +78,6 @@ fn deser_err(e: bincode::Error) -> String {
     }
 }
 
-// ------------------------------------------------------------------ `Default` probe
-// `Odd<BoxedUint>: Default` exists only while `Default for Odd<T>` is derived; a hand-written
-// `Default = ONE` (bound `T: Constants`, as `NonZero` has) removes it.  Autoref specialisation keeps the
-// harness compiling in both situations: `absent` is printed when the impl does not exist.
-struct DefaultProbe<T>(core::marker::PhantomData<T>);
-trait HasDefault<T> {
-    fn dflt(&self) -> Option<T>;
-}
-impl<T: Default> HasDefault<T> for DefaultProbe<T> {
-    fn dflt(&self) -> Option<T> {
-        Some(T::default())
-    }
-}
-trait NoDefault<T> {
-    fn dflt(&self) -> Option<T>;
-}
-impl<T> NoDefault<T> for &DefaultProbe<T> {
-    fn dflt(&self) -> Option<T> {
-        None
-    }
-}
-
 // ------------------------------------------------------------------ buffer-fed RNGs
 
 /// fallible: the words of the buffer, then `Err(Exhausted)`
@@ -476,10 +454,7 @@ fn boxed_ops(op: &str, a: &[&str]) -> Option<String> {
         },
         ("c12.odd.b.new", [k, v]) => ct(Odd::new(arg!(boxed(v, arg!(dec(k))))), oddb),
         ("c12.odd.b.to_odd", [k, v]) => ct(arg!(boxed(v, arg!(dec(k)))).to_odd(), oddb),
-        ("c12.odd.b.default", []) => match (&DefaultProbe::<Odd<BoxedUint>>(core::marker::PhantomData)).dflt() {
-            Some(w) => oddb(&w),
-            None => "absent".into(),
-        },
+        ("c12.odd.b.default", []) => oddb(&Odd::<BoxedUint>::default()),
         ("c12.odd.b.random", [bits, s]) => {
             let mut r = arg!(BufRng::new(s));
             let w = Odd::<BoxedUint>::random(&mut r, arg!(dec32(bits)));
